@@ -77,14 +77,14 @@ def run(ctx):
                 S.fail(c, fmt, "c", "ccube and xcube differ: " + d)
         return rc, rx
 
-    n_rand = 24000 if thorough else 1500
+    n_rand = 60000 if thorough else 4500
     for i in range(n_rand):
         c = ca.gen_case(rng)
         rc, rx = one(c, "random")
         if i < 3 and rc and rc.get("cells") is not None:
             ctx.samples.append({"case": ca.case_json(c), "ccube_cells": [[None if v is None else float(v) for v in row] for row in rc["cells"][:12]]})
     shapes = list(ca.BOUNDARY_SHAPES) + list(ca.EXTRA_BOUNDARY_SHAPES)
-    for rep in range(12 if thorough else 3):
+    for rep in range(30 if thorough else 3):
         for shp in shapes:
             one(ca.boundary_case(rng, shape=shp, kind=ca.KINDS[(rep + len(shp)) % 4] if rep else None), "boundary")
     for rep in range(10 if thorough else 2):
@@ -94,7 +94,7 @@ def run(ctx):
     for rep in range(40 if thorough else 8):
         for kind in ca.KINDS:
             one(ca.zero_dim_case(rng, kind), "zero-dim")
-    n_float = 6000 if thorough else 400
+    n_float = 15000 if thorough else 600
     for i in range(n_float):
         one(ca.float_case(rng), "float")
 
